@@ -36,7 +36,8 @@ def rule_agree(ctx):
 
 def rule_canon(ctx):
     # the second build() (inside the re-parse) must be the identity on a value produced by the first
-    C10.rule_idemp(ctx)
+    # only the parsable instantiations matter here: String, SmallString (and PackageType, via the finish rules)
+    C10.rule_idemp(ctx, shapes=("std::string::String", "smartstring::SmartString<"))
 
 
 RULES = [
